@@ -1,9 +1,9 @@
 (* C19 -- source facts.  The machines and monitors this property rests on were written against, and validated on,
    these definitions of /repo; tools/srcfacts.py regenerates their normal-form digests on every run (coq/Gen/Src_*.v).
-   Statements only. *)
+   Statements only.  Written by `tools/srcfacts.py --props` from PROP_MODULES. *)
 From Coq Require Import List String.
-From ME Require Import Model.SrcExpected Gen.Src_bind Gen.Src_wrap Gen.Src_wrapped Gen.Src_executors Gen.Src_flat_map Gen.Src_map
-  Proofs.Src_ok_bind Proofs.Src_ok_wrap Proofs.Src_ok_wrapped Proofs.Src_ok_executors Proofs.Src_ok_flat_map Proofs.Src_ok_map.
+From ME Require Import Model.SrcExpected Gen.Src_bind Gen.Src_wrap Gen.Src_wrapped Gen.Src_executors Gen.Src_flat_map Gen.Src_map Gen.Src_logwrap Gen.Src_metrics_null
+  Proofs.Src_ok_bind Proofs.Src_ok_wrap Proofs.Src_ok_wrapped Proofs.Src_ok_executors Proofs.Src_ok_flat_map Proofs.Src_ok_map Proofs.Src_ok_logwrap Proofs.Src_ok_metrics_null.
 
 (* more_executors/_impl/bind.py *)
 Theorem c19_source_bind : Src_bind.facts = expected_bind.
@@ -23,6 +23,12 @@ Proof. exact src_flat_map_ok. Qed.
 (* more_executors/_impl/map.py *)
 Theorem c19_source_map : Src_map.facts = expected_map.
 Proof. exact src_map_ok. Qed.
+(* more_executors/_impl/logwrap.py *)
+Theorem c19_source_logwrap : Src_logwrap.facts = expected_logwrap.
+Proof. exact src_logwrap_ok. Qed.
+(* more_executors/_impl/metrics/null.py *)
+Theorem c19_source_metrics_null : Src_metrics_null.facts = expected_metrics_null.
+Proof. exact src_metrics_null_ok. Qed.
 
 Print Assumptions c19_source_bind.
 Print Assumptions c19_source_wrap.
@@ -30,3 +36,5 @@ Print Assumptions c19_source_wrapped.
 Print Assumptions c19_source_executors.
 Print Assumptions c19_source_flat_map.
 Print Assumptions c19_source_map.
+Print Assumptions c19_source_logwrap.
+Print Assumptions c19_source_metrics_null.
